@@ -7,6 +7,7 @@ histories go to the Lean model (`HappyModel/C18`), transcripts are diffed; the L
 """
 from __future__ import annotations
 
+import json
 import random
 
 from hv import core
@@ -19,16 +20,27 @@ class C18(core.Property):
     audit_imports = ["HappyProofs.C18.Props"]
     lean_files = ["HappyModel/C18/*.lean", "HappyProofs/C18/*.lean", "HappyModel/Proto.lean", "Driver/C18.lean"]
     theorems = []  # filled from THEOREMS below
-    quick_cases = 1500
-    thorough_cases = 60000
+    variants = ["repaired", "current"]   # store family: adoption of a peer's key (fixes/C18-store-adopts-remote-node-id)
+    quick_cases = 6000
+    thorough_cases = 100000
+    pool_workers = 1     # a case takes a few ms; the fork pool costs more than it saves (93 s vs 20 s under load)
     rule = ("family clocks: history of ≤40 loc/send/recv events among 2–5 nodes with per-node physical readings "
-            "(skewed, drifting, jumping backwards); family crdt: ≤40 inc/dec/lset/oadd/orem/merge/roundtrip operations over 2–4 replicas, "
+            "(skewed, drifting, jumping backwards), every node's VectorClock constructed with the full, a partial, an empty or "
+            "a self-only membership list; family store: 2–4 CRDTStore replicas of one CRDT type (G/PN counter, OR-set, LWW "
+            "register), 1–3 keys, full / partial / ring peer lists, ≤40 client writes, gossip ticks and deliveries of pushed and "
+            "answered states in any order with duplication and loss, optionally the same writes mirrored on several stores "
+            "(equal values, different state); non-trivial when a message is delivered after a write; family crdt: ≤40 inc/dec/lset/oadd/orem/merge/roundtrip operations over 2–4 replicas, "
             "≤3 elements; a case is non-trivial when it contains at least one receive (clocks) or one merge after an update (crdt); "
             "distinct = distinct case content")
     trusted_base = [
         "hv/props/c18.py adapters (drive the real clock/CRDT objects, canonical transcript)",
         "node ids '0'..'9' (string order = numeric order)",
         "CPython dict/set semantics",
+        "store family: the real CRDTStore entities run inside a real Simulation; the Network subclass HNet keeps the real "
+        "Network.send (message construction) and replaces routing by the case's delivery schedule (a delivery re-injects "
+        "the recorded message's metadata at the destination store); the gossip peer of a tick is steered by seeding the "
+        "global `random` right before the tick so that random.choice picks the peer the case names",
+        "store family: register writes are made with get_or_create(key).set(value, timestamp) (a Write event cannot carry a timestamp)",
     ]
     assumptions = [
         "LWW: the Spec accepts any seen write with a maximal timestamp (writes with identical timestamps and different values are ambiguous by the property text)",
@@ -43,13 +55,24 @@ class C18(core.Property):
         "OR-set merge laws are extensional (ORSet.Equiv: same members of ents and of tomb, hence the same has); "
         "the lists are used as sets and seq is the replica-local tag counter",
         "same_updates_equal_values: 'same updates' = the knowledge sets of the two replicas have the same members (SameSet)",
+        "store_* theorems are about the repaired adoption (variant `repaired`, /repo commit 9d1309d); "
+        "store_adoption_current_loses_increment is the decided counterexample for the code before the fix",
+        "store level: 'received' = contained in a serialised state that was delivered (a message carries what its sender had "
+        "received when it was built); rep_merge_comm needs LWW.Coherent, rep_merge_idem and rep_adopt need ORSet.WF (reachable states have it)",
+        "exchange_all_converges / store_exchange_converges: the group merges only from its own members and every member's state "
+        "reaches every member during the exchange (`reach`), no updates during the exchange",
+        "store_deliver_is_keywise_merge: the message lists each key once and its destination is a store (true of every message "
+        "the protocol layer builds; stated as hypotheses, with a decided example)",
+        "the judge-accepts-model link for the store judge (judgeStore on the model's own transcript returns none) is tested, not proved",
     ]
 
     # ------------------------------------------------------------------ generation
     def generate(self, rng: random.Random, i: int, tier: str) -> dict:
-        if i % 2 == 0:
+        if i % 3 == 0:
             return self.gen_clocks(rng, tier)
-        return self.gen_crdt(rng, tier)
+        if i % 3 == 1:
+            return self.gen_crdt(rng, tier)
+        return self.gen_store(rng, tier)
 
     def gen_clocks(self, rng, tier):
         n = rng.randint(2, 5)
@@ -77,7 +100,21 @@ class C18(core.Property):
             else:
                 m = rng.choice(sent) if rng.random() < 0.7 else sent[-1]
                 evs.append(["recv", node, m, phys[node]])
-        return {"family": "clocks", "n": n, "events": evs}
+        case = {"family": "clocks", "n": n, "events": evs}
+        # membership each node's VectorClock is constructed with: full and identical on every node, or partial
+        # (a node that has not heard of a peer yet has no entry for it; entries appear on receive), so that the
+        # key sets of two compared clocks differ; ids ≥ n are members that never take part
+        mk = rng.random()
+        if mk < 0.3:
+            pass                                                    # full membership (the key is absent)
+        elif mk < 0.6:
+            case["members"] = [[i] for i in range(n)]               # every node knows only itself
+        elif mk < 0.7:
+            case["members"] = [[] for _ in range(n)]                # empty list: own entry is added by the constructor
+        else:
+            pool = list(range(n)) + [n, n + 1]
+            case["members"] = [sorted(rng.sample(pool, rng.randint(0, len(pool)))) for _ in range(n)]
+        return case
 
     def gen_crdt(self, rng, tier):
         n = rng.randint(2, 4)
@@ -119,10 +156,81 @@ class C18(core.Property):
                 ops.append(["clone", c, r])
         return {"family": "crdt", "n": n, "ops": ops}
 
+    def gen_store(self, rng, tier):
+        """CRDTStore replicas: client writes, gossip ticks, deliveries of pushed / answered states in any order, with
+        duplication (a message id delivered again) and loss (never delivered). The generator tracks which messages
+        exist (a tick creates a push when the store has peers, a delivered push creates a response when the receiver
+        lists the sender as a peer) so that deliveries mostly name real messages."""
+        n = rng.randint(2, 4)
+        kind = rng.choice(["g", "pn", "pn", "or", "or", "lww"])
+        nkeys = rng.choice([1, 1, 2, 3])
+        pk = rng.random()
+        if pk < 0.6:
+            peers = [[j for j in range(n) if j != i] for i in range(n)]
+        elif pk < 0.8:
+            peers = [sorted(rng.sample([j for j in range(n) if j != i], rng.randint(0, n - 1))) for i in range(n)]
+        else:
+            peers = [[(i + 1) % n] for i in range(n)]            # a ring: the pushed-to store does not answer
+        ln = rng.choice([4, 8, 16, 30, 40])
+        mirror = rng.random() < 0.4          # the same client writes at several stores: equal values, different state
+        small = rng.random() < 0.6
+        steps, msgs = [], []                  # msgs: (src, dst, is_push)
+        ts_pool = [(rng.choice([0, 1, 5, 5, 9]), rng.choice([0, 0, 1, 2])) for _ in range(6)]
+        used = set()
+
+        def write(sid):
+            key = rng.randrange(nkeys)
+            if kind in ("g", "pn"):
+                r = rng.random()
+                amt = 1 if small else rng.choice([1, 1, 2, 7])
+                if r < 0.06:
+                    return ["w", sid, key, "inc", None]            # Write without a value: increment() by the default 1
+                if kind == "pn" and r < 0.4:
+                    return ["w", sid, key, "dec", amt]
+                if kind == "g" and r < 0.12:
+                    return ["w", sid, key, "dec", amt]             # GCounter has no decrement: the key is created, nothing else
+                return ["w", sid, key, "inc", amt]
+            if kind == "or":
+                return ["w", sid, key, "add" if rng.random() < 0.6 else "rem", rng.randrange(2 if small else 3)]
+            p, l = rng.choice(ts_pool)
+            nd = sid if rng.random() < 0.8 else rng.randrange(n)
+            v = rng.choice([0, 0, rng.randrange(50)])
+            if (p, l, nd) in used and rng.random() < 0.9:
+                l += 1 + len(used)
+            used.add((p, l, nd))
+            return ["lset", sid, key, v, p, l, nd]
+
+        while len(steps) < ln:
+            r = rng.random()
+            sid = rng.randrange(n)
+            if r < 0.32:
+                w = write(sid)
+                if mirror and w[0] == "w":
+                    for t in rng.sample(range(n), rng.randint(2, n)):
+                        steps.append([w[0], t] + w[2:])
+                else:
+                    steps.append(w)
+            elif r < 0.57:
+                j = rng.randrange(max(1, len(peers[sid])))
+                steps.append(["tick", sid, j])
+                if peers[sid]:
+                    msgs.append((sid, peers[sid][j], True))
+            elif r < 0.6:
+                steps.append(["dl", len(msgs) + rng.randrange(2)])   # a message that does not exist (yet): nothing happens
+            elif msgs:
+                m = len(msgs) - 1 - min(len(msgs) - 1, int(rng.expovariate(0.7))) if rng.random() < 0.7 else rng.randrange(len(msgs))
+                steps.append(["dl", m])
+                src, dst, push = msgs[m]
+                if push and src in peers[dst]:
+                    msgs.append((dst, src, False))
+        return {"family": "store", "kind": kind, "n": n, "nkeys": nkeys, "peers": peers, "steps": steps}
+
     # ------------------------------------------------------------------ implementation
     def run_impl(self, case):
         if case["family"] == "clocks":
             return self.impl_clocks(case)
+        if case["family"] == "store":
+            return self.impl_store(case)
         return self.impl_crdt(case)
 
     def impl_clocks(self, case):
@@ -133,7 +241,8 @@ class C18(core.Property):
         ids = [str(i) for i in range(n)]
         phys = [0] * n
         lam = [LamportClock() for _ in ids]
-        vc = [VectorClock(i, ids) for i in ids]
+        members = case.get("members") or [list(range(n))] * n
+        vc = [VectorClock(ids[k], [str(j) for j in members[k]]) for k in range(n)]
         hlc = [HybridLogicalClock(ids[k], wall_time=(lambda k=k: Instant(phys[k]))) for k in range(n)]
         msgs = {}
         out, snaps = [], []
@@ -168,7 +277,10 @@ class C18(core.Property):
         hb = []
         for b in range(len(snaps)):
             hb.append(f"hb {b} " + "".join("1" if snaps[a].happened_before(snaps[b]) else "0" for a in range(len(snaps))))
-        return out + hb
+        cc = []
+        for b in range(len(snaps)):
+            cc.append(f"cc {b} " + "".join("1" if snaps[a].is_concurrent(snaps[b]) else "0" for a in range(len(snaps))))
+        return out + hb + cc
 
     def impl_crdt(self, case):
         from happysimulator.components.crdt.lww_register import LWWRegister
@@ -212,6 +324,135 @@ class C18(core.Property):
             out.append(self.rep_line(r, pn[r], lw[r], os_[r], ids))
         return out
 
+    # ---- CRDTStore replicas under a harness-scheduled network
+    _CHOICE_SEED = {}
+
+    @classmethod
+    def choice_seed(cls, length, idx):
+        """a seed for the global `random` under which `random.choice` over `length` items picks item `idx`
+        (CRDTStore picks the gossip peer with random.choice; the case names the peer)"""
+        key = (length, idx)
+        if key not in cls._CHOICE_SEED:
+            probe = list(range(length))
+            r = random.Random()
+            k = 0
+            while True:
+                r.seed(k)
+                if r.choice(probe) == idx:
+                    break
+                k += 1
+            cls._CHOICE_SEED[key] = k
+        return cls._CHOICE_SEED[key]
+
+    def impl_store(self, case):
+        import random as _random
+
+        from happysimulator import Event, Instant, Network, Simulation
+        from happysimulator.components.crdt.crdt_store import CRDTStore
+        from happysimulator.components.crdt.g_counter import GCounter
+        from happysimulator.components.crdt.lww_register import LWWRegister
+        from happysimulator.components.crdt.or_set import ORSet
+        from happysimulator.components.crdt.pn_counter import PNCounter
+        from happysimulator.core.entity import Entity
+        from happysimulator.core.logical_clocks import HLCTimestamp
+
+        kind, n, peers, steps = case["kind"], case["n"], case["peers"], case["steps"]
+        cls = {"g": GCounter, "pn": PNCounter, "or": ORSet, "lww": LWWRegister}[kind]
+        ids = [str(i) for i in range(n)]
+        pool = []          # every message handed to the network, in creation order
+
+        class HNet(Network):
+            """the real Network.send builds the messages; routing is replaced by the case's delivery schedule"""
+            def handle_event(self, event):
+                pool.append(event)
+                return None
+
+        net = HNet(name="net")
+        stores = [CRDTStore(ids[i], network=net, crdt_factory=lambda nid: cls(nid), gossip_interval=0.0) for i in range(n)]
+        for i in range(n):
+            stores[i].add_peers([stores[j] for j in peers[i]])
+        out = []
+        opname = {"inc": "increment", "dec": "decrement", "add": "add", "rem": "remove"}
+        prop = self
+
+        class Drv(Entity):
+            def handle_event(self, event):
+                i, phase = event.context["metadata"]["i"], event.context["metadata"]["phase"]
+                st = steps[i]
+                if phase == 1:
+                    return prop.store_observe(out, i, st, stores, pool, seen, ids, kind)
+                seen[0] = len(pool)
+                if st[0] == "w":
+                    _, sid, key, op, val = st
+                    v = val if op in ("inc", "dec") else str(val)
+                    return Event(time=self.now, event_type="Write", target=stores[sid],
+                                 context={"metadata": {"key": f"k{key}", "operation": opname[op], "value": v}})
+                if st[0] == "lset":
+                    _, sid, key, v, p, l, nd = st
+                    stores[sid].get_or_create(f"k{key}").set(None if v == 0 else v, HLCTimestamp(p, l, str(nd)))
+                    return None
+                if st[0] == "tick":
+                    _, sid, j = st
+                    if peers[sid]:
+                        _random.seed(prop.choice_seed(len(peers[sid]), j % len(peers[sid])))
+                    return Event(time=self.now, event_type="GossipTick", target=stores[sid])
+                if st[0] == "dl":
+                    m = st[1]
+                    if m >= len(pool):
+                        return None
+                    orig = pool[m]
+                    md = dict(orig.context["metadata"])      # same payload object: a duplicate is the same message
+                    dst = stores[int(md["destination"])]
+                    return Event(time=self.now, event_type=orig.event_type, target=dst, context={"metadata": md})
+                return None
+
+        seen = [0]
+        drv = Drv("drv")
+        sim = Simulation(start_time=Instant.Epoch, end_time=Instant.from_seconds(len(steps) + 5.0), sources=[],
+                         entities=[*stores, net, drv])
+        for i in range(len(steps)):
+            for phase in (0, 1):
+                sim.schedule(Event(time=Instant.from_seconds(1.0 + i + 0.5 * phase), event_type="Step", target=drv,
+                                   context={"metadata": {"i": i, "phase": phase}}))
+        _random.seed(0)
+        sim.run()
+        return out
+
+    @staticmethod
+    def store_observe(out, i, st, stores, pool, seen, ids, kind):
+        """transcript after step i: messages created by the step, then the public state of the acting store"""
+        if st[0] == "dl":
+            acting = int(pool[st[1]].context["metadata"]["destination"]) if st[1] < seen[0] else None
+        else:
+            acting = st[1]
+        out.append(f"t {i} {'-' if acting is None else acting}")
+        for m in range(seen[0], len(pool)):
+            md = pool[m].context["metadata"]
+            keys = " ".join(str(k) for k in sorted(int(k[1:]) for k in md["state"]))
+            out.append(f"m {m} {'push' if pool[m].event_type == 'GossipPush' else 'resp'} {md['source']} {md['destination']} {keys}".rstrip())
+        if acting is None:
+            return None
+        crdts = stores[acting].crdts
+        j = lambda xs: " ".join(str(x) for x in xs)
+        for key in sorted(crdts, key=lambda k: int(k[1:])):
+            c = crdts[key]
+            d = c.to_dict()
+            head = f"s {acting} {key[1:]} nid {d['node_id']}"
+            if kind == "g":
+                out.append(f"{head} v {c.value} P {j(d['counts'].get(x, 0) for x in ids)} X {j(sorted(set(d['counts']) - set(ids)))}".rstrip())
+            elif kind == "pn":
+                extra = sorted((set(d['p']['counts']) | set(d['n']['counts'])) - set(ids))
+                out.append(f"{head} v {c.value} P {j(d['p']['counts'].get(x, 0) for x in ids)} N {j(d['n']['counts'].get(x, 0) for x in ids)} X {j(extra)}".rstrip())
+            elif kind == "lww":
+                ts = c.timestamp
+                out.append(f"{head} lww " + ("none" if ts is None else f"{ts.physical_ns} {ts.logical} {ts.node_id} {0 if c.value is None else c.value}"))
+            else:
+                elems = sorted(int(e) for e in c.elements)
+                live = sorted(int(e) * 10**9 + int(t[0]) * 10**6 + t[1] for e, tags in d["entries"].items() for t in tags)
+                dead = sorted(int(t[0]) * 10**6 + t[1] for t in d.get("tombstones", []))
+                out.append(f"{head} q {d['seq']} E {j(elems)} T {j(live)} D {j(dead)}")
+        return None
+
     @staticmethod
     def rep_line(r, pn, lw, os_, ids):
         d = pn.to_dict()
@@ -227,9 +468,18 @@ class C18(core.Property):
         return f"r {r} pn {pn.value} P {P} N {N} | lww {lww} | os E {j(elems)} T {j(live)} D {j(dead)}"
 
     # ------------------------------------------------------------------ model / judge
+    @staticmethod
+    def store_body(case):
+        body = [f"peers {i} " + " ".join(map(str, ps)) for i, ps in enumerate(case["peers"])]
+        return body, [" ".join(map(str, st)) for st in case["steps"]]
+
     def model_block(self, case, variant):
         if case["family"] == "clocks":
-            return (f"clocks {case['n']}", [" ".join(map(str, e)) for e in case["events"]])
+            mem = [f"mem {i} " + " ".join(map(str, ms)) for i, ms in enumerate(case.get("members") or [])]
+            return (f"clocks {case['n']}", mem + [" ".join(map(str, e)) for e in case["events"]])
+        if case["family"] == "store":
+            peers, steps = self.store_body(case)
+            return (f"store {variant} {case['kind']} {case['n']}", peers + steps)
         body = []
         for op in case["ops"]:
             if op[0] == "clone":
@@ -249,7 +499,12 @@ class C18(core.Property):
                 if line.startswith("e "):
                     t = line.split()
                     body.append("obs " + t[1] + " " + " ".join(t[3:]))
+                elif line.startswith("hb ") or line.startswith("cc "):
+                    # the implementation's own happened_before / is_concurrent verdicts (row b: bit a = V(a) ? V(b))
+                    body.append(line[:2] + "o" + line[2:])
             return (f"judge-clocks {case['n']}", body)
+        if case["family"] == "store":
+            return self.judge_store_block(case, impl_out)
         body = []
         ops = [op for op in case["ops"]]
         if len(ops) != len(impl_out):
@@ -266,7 +521,47 @@ class C18(core.Property):
             body.append(f"obs {value} lww {lww} E {elems}".rstrip())
         return ("judge-crdt", body)
 
+    def judge_store_block(self, case, impl_out):
+        """script + what the implementation was seen to do: the messages it handed to the network and the values the
+        acting store reports after each step (counter value / register timestamp+value / set elements only)"""
+        _, steps = self.store_body(case)
+        per = {}
+        cur = None
+        for line in impl_out:
+            t = line.split()
+            if t[0] == "t":
+                cur = int(t[1])
+                per[cur] = []
+            elif cur is None:
+                return None
+            elif t[0] == "m":
+                per[cur].append(line)
+            elif t[0] == "s":
+                if t[5] == "v":
+                    per[cur].append(f"obs {t[1]} {t[2]} v {t[6]}")
+                elif t[5] == "lww":
+                    per[cur].append(f"obs {t[1]} {t[2]} lww " + " ".join(t[6:]))
+                else:
+                    e = t.index("E")
+                    per[cur].append(f"obs {t[1]} {t[2]} E " + " ".join(t[e + 1:t.index("T", e)]))
+        if sorted(per) != list(range(len(steps))):
+            return None
+        body = []
+        for i, st in enumerate(steps):
+            body.append(st)
+            body.extend(x.rstrip() for x in per[i])
+        return (f"judge-store {case['kind']} {case['n']} {case['nkeys']}", body)
+
     def nontrivial_key(self, case, impl_out):
+        if case["family"] == "store":
+            wrote = False
+            created = 0
+            for st in case["steps"]:
+                if st[0] in ("w", "lset"):
+                    wrote = True
+                elif st[0] == "dl" and wrote and any(l.startswith("m ") for l in impl_out):
+                    return ("store", json.dumps(case, sort_keys=True))
+            return None
         if case["family"] == "clocks":
             if any(e[0] == "recv" for e in case["events"]):
                 return ("clocks", case["n"], tuple(map(tuple, case["events"])))
@@ -280,7 +575,7 @@ class C18(core.Property):
         return None
 
     def shrink(self, case):
-        key = "events" if case["family"] == "clocks" else "ops"
+        key = {"clocks": "events", "store": "steps"}.get(case["family"], "ops")
         xs = case[key]
         n = len(xs)
         step = max(1, n // 2)
@@ -293,7 +588,7 @@ class C18(core.Property):
             step //= 2
 
     def mutate(self, case, rng):
-        key = "events" if case["family"] == "clocks" else "ops"
+        key = {"clocks": "events", "store": "steps"}.get(case["family"], "ops")
         xs = [list(x) for x in case[key]]
         if not xs:
             return case
@@ -337,6 +632,26 @@ THEOREMS = [
     "HappyModel.C18.orset_spec",
     "HappyModel.C18.lww_spec",
     "HappyModel.C18.same_updates_equal_values",
+    # vector clocks as dicts with partial / growing key sets
+    "HappyModel.C18.kvec_happened_before_spec",
+    "HappyModel.C18.keyed_clock_refines_vector",
+    "HappyModel.C18.keyed_vector_strict_iff_hb",
+    # CRDTStore replicas under gossip
+    "HappyModel.C18.store_refines_replicas",
+    "HappyModel.C18.store_counter_value_spec",
+    "HappyModel.C18.store_orset_spec",
+    "HappyModel.C18.store_lww_spec",
+    "HappyModel.C18.store_same_updates_equal_values",
+    "HappyModel.C18.store_adoption_current_loses_increment",
+    "HappyModel.C18.sys_merge_is_rep_merge",
+    "HappyModel.C18.rep_merge_comm",
+    "HappyModel.C18.rep_merge_assoc",
+    "HappyModel.C18.rep_merge_idem",
+    "HappyModel.C18.rep_adopt",
+    "HappyModel.C18.store_deliver_is_keywise_merge",
+    "HappyModel.C18.exchange_same_knowledge",
+    "HappyModel.C18.exchange_all_converges",
+    "HappyModel.C18.store_exchange_converges",
 ]
 C18.theorems = THEOREMS
 PROPERTY = C18()
